@@ -253,7 +253,7 @@ func (r *stackRun) apply(op Op) string {
 		r.poppedDeep = false
 		return r.check()
 	case "pushRun":
-		for i := 0; i <= a%12; i++ {
+		for i, n := 0, runLen(a); i <= n; i++ {
 			r.sub = i
 			if msg := r.doPush(i%2 == 1); msg != "" {
 				return msg
@@ -261,7 +261,7 @@ func (r *stackRun) apply(op Op) string {
 		}
 		return ""
 	case "popRun":
-		for i := 0; i <= a%12; i++ {
+		for i, n := 0, runLen(a); i <= n; i++ {
 			r.sub = i
 			if msg := r.doPop(); msg != "" {
 				return msg
@@ -308,4 +308,13 @@ func runStack(c SeqCase, o *vk.Obs) string {
 	o.ClassIf(r.popEmpty > 0, "pop_on_empty")
 	o.ClassIf(r.maxDepth >= 8, "depth>=8")
 	return ""
+}
+
+// runLen maps a run argument to a length: mostly 0..11, one argument in eight
+// gives a long run (60..260 elements: several growth steps of the backing store).
+func runLen(a int) int {
+	if a%8 == 7 {
+		return 60 + a%201
+	}
+	return a % 12
 }
